@@ -399,8 +399,7 @@ Proof.
     2:{ inversion H; subst. eapply reaction_not_unknown; [eapply add_defaults_err; eauto|exact Hk]. }
     eapply validate_not_unknown; eauto.
   - assert (He : e = e0).
-    { destruct (is_set s_ignore_errors c); [|inversion H; reflexivity].
-      destruct (add_env c s); try discriminate; destruct (add_defaults c _); try discriminate; inversion H; reflexivity. }
+    { exact (post_err_same_error _ _ _ _ _ H). }
     subst e0. eapply Hp; [reflexivity|exact Hk].
   - discriminate.
 Qed.
